@@ -12,9 +12,11 @@ the rules see.
 
 R1  paired decrement: on every step the total taken off fuel_mass and the total
     taken off aircraft_mass of the same point are the same amount (algebraic
-    equality), both are written only by subtracting from their previous value,
-    and a phase that is not the first continues from the last stored point
-    (make_point(-1)).
+    equality), both are written only by subtracting from their previous value
+    (a bound put on the result of one subtraction -- max(prev - a, 0), clip --
+    takes a different amount off that mass than off the other and is reported
+    as such), and a phase that is not the first continues from the last stored
+    point (make_point(-1)).
 R2  clamp: in the level-change phases the amount subtracted on a step is zero,
     max(., 0), or the step's path condition excludes a negative amount (the path
     condition is evaluated with the amount at -1).
@@ -75,7 +77,9 @@ R9  resampling (value flow over Trajectory.interpolate_time, evaluated per kind
     Trajectory sized by the new time vector with the same field sets.
 R10 out-of-envelope states are refused rather than extrapolated or filled with
     NaN: the evaluate path of the performance model interpolates only with
-    bounds-checked scipy interpn over its own table (C06-R2).
+    look-ups that refuse a point outside the grid -- scipy interpn or a prebuilt
+    RegularGridInterpolator / interp1d object with bounds checking on -- over
+    its own table (C06-R2).
 """
 
 from __future__ import annotations
@@ -864,6 +868,24 @@ def _delta(final_value, cur_text):
     return rest
 
 
+def _clamped(v):
+    """x when v bounds x from one side: max(x, c) / min(x, c) / np.maximum / np.minimum / np.fmax / np.fmin / np.clip(x, ...)
+    / x.clip(...)"""
+    while isinstance(v, ast.Call) and _c(v.func) in ('float', 'np.float64', 'numpy.float64') and len(v.args) == 1 and not v.keywords:
+        v = v.args[0]
+    if not isinstance(v, ast.Call) or v.keywords and not all(k.arg in ('a_min', 'a_max', 'min', 'max') for k in v.keywords):
+        return None
+    nm = _c(v.func)
+    if nm in ('max', 'min', 'np.maximum', 'np.minimum', 'np.fmax', 'np.fmin', 'numpy.maximum', 'numpy.minimum') and len(v.args) == 2:
+        a, b = v.args
+        return b if isinstance(a, ast.Constant) else a
+    if nm in ('np.clip', 'numpy.clip') and v.args:
+        return v.args[0]
+    if isinstance(v.func, ast.Attribute) and v.func.attr == 'clip':
+        return v.func.value
+    return None
+
+
 def _amount_nf(rest):
     from .c06 import _nf
     expr = None
@@ -889,8 +911,15 @@ def rule_flight(ctx):
                 sib = [(t2, v2, e2) for t2, v2, e2 in (am if t.attr == 'fuel_mass' else fm) if canon(t2.value) == canon(t.value)]
                 d = _delta(v, canon(t))
                 if d is None or any(s > 0 and not (isinstance(x, ast.Constant) and x.value == 0) for s, x in d):
-                    ctx.ob('C02-R1', e.fi, f'{t.attr} = {canon(uncur(v))[:60]}', False,
-                           f'{t.attr} written other than by subtracting the segment fuel from its previous value', line=e.line)
+                    why = f'{t.attr} written other than by subtracting the segment fuel from its previous value'
+                    inner = _clamped(v)
+                    if d is None and inner is not None and _delta(inner, canon(t)) is not None:
+                        # a bound on the *result* of the subtraction: what leaves this mass is no longer the segment fuel
+                        sd = _delta(sib[0][1], canon(sib[0][0])) if sib else None
+                        why = (f'{t.attr} is bounded after the subtraction (`{canon(uncur(v))[:50]}`)'
+                               + (f' while {other} is reduced by the full amount' if sd is not None else '')
+                               + f': once the bound acts the two masses stop moving together and aircraft mass minus fuel mass is no longer constant')
+                    ctx.ob('C02-R1', e.fi, f'{t.attr} = {canon(uncur(v))[:60]}', False, why, line=e.line)
                     continue
                 if not sib:
                     ctx.ob('C02-R1', e.fi, f'{t.attr} -= {canon(uncur(v))[:50]} paired with {other}', False,
@@ -1533,10 +1562,13 @@ def run(ctx):
     # R10: a state outside the performance envelope is refused (the no-extrapolation rule of C06)
     from .c06 import rule_no_extrapolation
     sub = type(ctx)(ctx.prop, ctx.prog, ctx.tier)
-    rule_no_extrapolation(sub)
-    for o in sub.obligations:
-        o.rule = 'C02-R10'
-        ctx.obligations.append(o)
-    ctx.controls += sub.controls
+    try:
+        rule_no_extrapolation(sub)
+    finally:
+        # what the rule established before an anchor went missing still stands
+        for o in sub.obligations:
+            o.rule = 'C02-R10'
+            ctx.obligations.append(o)
+        ctx.controls += sub.controls
     ctx.assumptions += ['monotonicity of time/distance and altitude values depend on table values (not decided)',
                         'np.resize keeps the leading elements of the resized buffer']
